@@ -20,6 +20,7 @@
 -/
 import Y0.Lemmas.SepVerdict
 import Y0.Lemmas.SepSort
+import Y0.Lemmas.SepDag
 
 namespace Y0.MG
 variable {α : Type} [DecidableEq α]
@@ -153,6 +154,82 @@ theorem dsep_equiv_congr (G H : MG α) (hG : G.WF) (hH : H.WF) (h : G.equiv H = 
       cases s <;> cases s' <;> simp_all
   · rw [dSeparated_invalid G a b C hq, dSeparated_invalid H a b C (fun h => hq (hv.2 h))]
 
+/-! ## 6. the augmented-graph criterion is m-separation, which is d-separation in the canonical DAG
+
+The classical theorem (Lauritzen, Dawid, Larsen & Leimer 1990 for DAGs; Richardson 2003 for ADMGs), proved here
+from first principles for every directed mixed graph — acyclicity is not needed for the equivalences, only for
+`dagOf G` to be a DAG (`dagOf_acyclic`).  The proof is in Y0/Lemmas/SepWalk.lean (criterion ⟺ open walk),
+Y0/Lemmas/SepPath.lean (open walk ⟺ open path) and Y0/Lemmas/SepDag.lean (mixed graph ⟺ canonical DAG). -/
+
+/-- separation in the augmented ancestral graph minus `C`  ⟺  no m-connecting path -/
+theorem augmented_iff_mconn (G : MG α) (a b : α) (C : List α) (hab : a ≠ b) (ha : a ∉ C) (hb : b ∉ C) :
+    G.AugSeparated a b C ↔ ¬ G.MConnPath a b C := by
+  unfold AugSeparated
+  rw [augConnected_iff_mwalk G C a b ha hb, mconnPath_iff_mconnWalk G C a b hab, mconnWalk_iff_mwalk G C a b hab]
+  simp [ha, hb]
+
+/-- an m-connecting path in the mixed graph  ⟺  a d-connecting path in the canonical DAG (each bidirected
+edge replaced by a fresh latent common parent) -/
+theorem mconn_iff_dconn_canonical (G : MG α) (a b : α) (C : List α) (hab : a ≠ b) :
+    G.MConnPath a b C ↔ G.DConnCanonical a b C := mconnPath_iff_dconnCanonical G C a b hab
+
+/-- paths and walks define the same connection relation -/
+theorem mconn_path_iff_walk (G : MG α) (a b : α) (C : List α) (hab : a ≠ b) :
+    G.MConnPath a b C ↔ G.MConnWalk a b C := mconnPath_iff_mconnWalk G C a b hab
+
+theorem dag_tg_from_obs (G : MG α) (y : α) (n : LNode α) (h : TransGen G.dagOf.DiEdge (.obs y) n) :
+    ∃ z, n = .obs z ∧ TransGen G.DiEdge y z := by
+  induction h with
+  | single h =>
+    obtain ⟨v, rfl, hv⟩ := dag_di_from_obs G y _ h
+    exact ⟨v, rfl, .single hv⟩
+  | tail _ hbc ih =>
+    obtain ⟨z, rfl, hyz⟩ := ih
+    obtain ⟨v, rfl, hzv⟩ := dag_di_from_obs G z _ hbc
+    exact ⟨v, rfl, hyz.tail hzv⟩
+
+/-- the canonical DAG of an acyclic mixed graph is a DAG: no directed cycle, no bidirected edge -/
+theorem dagOf_acyclic (G : MG α) (hG : G.Acyclic) : G.dagOf.Acyclic ∧ ∀ x y, ¬ G.dagOf.BiEdge x y := by
+  refine ⟨?_, dag_no_bi G⟩
+  intro n hn
+  cases n with
+  | obs v =>
+    obtain ⟨z, hz, hvz⟩ := dag_tg_from_obs G v _ hn
+    cases hz
+    exact hG v hvz
+  | lat e =>
+    rcases TransGen.tail'_iff.1 hn with ⟨c, _, hc⟩
+    exact dag_di_to_lat G c e hc
+
+/-- **C04, main clause.**  For every graph the Python API can build, every pair of distinct nodes and every
+conditioning set not containing them, the test reports "separated" exactly when `a` and `b` are m-separated
+given `C` (no m-connecting path) … -/
+theorem dsep_iff_mseparated (G : MG α) (hG : G.WF) (a b : α) (C : List α) (hq : G.ValidQuery a b C)
+    (hab : a ≠ b) (ha : a ∉ C) (hb : b ∉ C) (s : Bool) (hs : G.dSeparated a b C = .ok s) :
+    s = true ↔ ¬ G.MConnPath a b C := by
+  rw [dsep_iff_augmented G hG a b C hq ha hb s hs, augmented_iff_mconn G a b C hab ha hb]
+
+/-- … which is exactly d-separation of `a` and `b` given `C` in the directed acyclic graph obtained by replacing
+every bidirected edge with an unobserved common parent. -/
+theorem dsep_iff_dsep_canonical (G : MG α) (hG : G.WF) (a b : α) (C : List α) (hq : G.ValidQuery a b C)
+    (hab : a ≠ b) (ha : a ∉ C) (hb : b ∉ C) (s : Bool) (hs : G.dSeparated a b C = .ok s) :
+    s = true ↔ ¬ G.DConnCanonical a b C := by
+  rw [dsep_iff_mseparated G hG a b C hq hab ha hb s hs, mconn_iff_dconn_canonical G a b C hab]
+
+-- OPEN: the last clause of C04, "consequently every reported separation is a conditional independence of every
+-- compatible model" (the global Markov property of ADMGs).  Full statement, with `Scm G` the semi-Markovian models
+-- of DESIGN.md 3.3 (independent latent roots realising the bidirected edges, positive kernels) and `CI M a b C`
+-- meaning  P(a, b, C) · P(C) = P(a, C) · P(b, C)  for all values:
+--
+--   theorem dsep_sound (G : MG Nat) (hG : G.WF) (hA : G.Acyclic) (a b : Nat) (C : List Nat)
+--       (hq : G.ValidQuery a b C) (hab : a ≠ b) (ha : a ∉ C) (hb : b ∉ C)
+--       (hs : G.dSeparated a b C = .ok true) : ∀ M : Scm G, CI M a b C
+--
+-- Not mechanised (no `Scm` development in this family's files).  What IS proved above reduces it to the textbook
+-- statement "d-separation in a DAG implies conditional independence in every Bayesian network over that DAG"
+-- applied to the canonical DAG (`dsep_iff_dsep_canonical`).  The harness decides the clause per case on small
+-- graphs by exact-rational evaluation of a random compatible SCM (harness/oracles/sep_paths.py `ci_holds`).
+
 end Y0.MG
 
 namespace Y0
@@ -205,5 +282,16 @@ example : f2Graph.dSeparated 1 2 [] = .ok true := by decide
 example : f2Graph.dSeparated 1 7 [] = .error (.invalidInput "KeyError") := by decide
 example : f2Graph.dSeparated 1 2 [2] = .error (.internal "NodeNotFound") := by decide
 example : f2Graph.areDSeparated 2 1 [0, 0] = .ok ⟨false, 1, 2, [0]⟩ := by decide
+
+/-- the specification side is inhabited too: `1 ↔ 0 ↔ 2` is an m-connecting path given `{0}` (the collider `0`
+is in `C`), so `dsep_iff_mseparated` forces the verdict `false` above -/
+example : f2Graph.MConnPath 1 2 [0] := by
+  refine ⟨by decide, by decide, [⟨1, .head, .head, 0⟩, ⟨0, .head, .head, 2⟩], ⟨?_, rfl, rfl, ?_⟩, by decide⟩
+  · intro s hs
+    simp only [List.mem_cons, List.not_mem_nil, or_false] at hs
+    rcases hs with rfl | rfl
+    · exact .bi (Or.inl (by decide))
+    · exact .bi (Or.inr (by decide))
+  · refine .cons_cons ⟨rfl, fun _ => ⟨0, by simp, .refl⟩, fun h => absurd ⟨rfl, rfl⟩ h⟩ (.singleton _)
 
 end Y0
